@@ -9,6 +9,7 @@ import (
 	"strings"
 
 	"github.com/sdcio/yang-parser/xpath"
+	"github.com/sdcio/yang-parser/xpath/grammars/expr"
 	"github.com/sdcio/yang-parser/xpath/grammars/leafref"
 )
 
@@ -19,6 +20,7 @@ type GVec struct {
 	Ts   []string `json:"ts"`
 	V    string   `json:"v"`
 	Why  string   `json:"why"`
+	V2   string   `json:"v2"` // verdict under the second prefix environment ("" = not judged there)
 }
 
 type GOut struct {
@@ -81,22 +83,58 @@ func joinWs(ts []string) string {
 }
 
 func compileLeafref(text string) (m *xpath.Machine, err error, panicked interface{}) {
+	return compileLeafrefIn(text, mapFn)
+}
+
+func compileLeafrefIn(text string, env func(string) (string, error)) (m *xpath.Machine, err error, panicked interface{}) {
 	defer func() {
 		if r := recover(); r != nil {
 			panicked = r
 		}
 	}()
-	m, err = leafref.NewLeafrefMachine(text, mapFn)
+	m, err = leafref.NewLeafrefMachine(text, env)
 	return
 }
 
-func verdictOf(lang, text string) string {
+// mapFnB is the second prefix environment of XPathGrammarGen.tla: it knows "", zz and q (mapFn knows "", p and q)
+func mapFnB(prefix string) (string, error) {
+	switch prefix {
+	case "":
+		return "urn:self", nil
+	case "zz":
+		return "urn:zz", nil
+	case "q":
+		return "urn:q", nil
+	}
+	return "", fmt.Errorf("unknown prefix %q", prefix)
+}
+
+func compileExprIn(text string, env func(string) (string, error)) (m *xpath.Machine, err error, panicked interface{}) {
+	defer func() {
+		if r := recover(); r != nil {
+			panicked = r
+		}
+	}()
+	m, err = expr.NewExprMachine(text, env)
+	return
+}
+
+func verdictOf(lang, text string) string { return verdictIn(lang, text, false) }
+
+func verdictIn(lang, text string, envB bool) string {
 	var m *xpath.Machine
 	var err error
 	var pan interface{}
-	if lang == "leafref" {
+	switch {
+	case lang == "leafref" && envB:
+		m, err, pan = compileLeafrefIn(text, mapFnB)
+	case lang == "leafref":
 		m, err, pan = compileLeafref(text)
-	} else {
+	case envB:
+		if watchdog(func() { m, err, pan = compileExprIn(text, mapFnB) }) {
+			m, err, pan = nil, errHang, nil
+		}
+	default:
 		m, err, pan = compile(text)
 	}
 	switch {
@@ -122,7 +160,8 @@ func gram(args []string) {
 	ow := bufio.NewWriter(of)
 	defer ow.Flush()
 	enc := json.NewEncoder(ow)
-	n, judged, bad := 0, 0, 0
+	n, judged, bad, nested := 0, 0, 0, 0
+	prevText, prevLang, prevGot := "", "", ""
 	counts := map[string]int{}
 	for _, file := range fs.Args() {
 		f, err := os.Open(file)
@@ -159,6 +198,66 @@ func gram(args []string) {
 				bad++
 				continue
 			}
+			// the prefix environment is an input of THIS call only: the same text under the second environment, then under
+			// the first one again (verdicts must follow the environment, whatever was compiled before)
+			if v.V2 != "" {
+				gB, gA := verdictIn(v.Lang, t1, true), verdictOf(v.Lang, t1)
+				switch {
+				case gA != g1:
+					rec.Note = "history: " + gA + " under the same prefix environment after a compilation of the same text under another one (first: " + g1 + ")"
+					enc.Encode(rec)
+					bad++
+					continue
+				case v.V2 != "unspecified" && v.V != "unspecified" && gB != v.V2:
+					rec.Note = "second prefix environment (knows zz, not p): " + gB + ", specification says " + v.V2
+					rec.Want, rec.Got = v.V2, gB
+					enc.Encode(rec)
+					bad++
+					continue
+				}
+			}
+			// overlapping compilations: the prefix callback of this compilation compiles another text (the previous vector's)
+			// before it answers; both compilations must come out as they do on their own
+			if v.Kind != "chars" && strings.Contains(t1, ":") && prevText != "" {
+				nested++
+				innerGot, called := "", false
+				env := func(pfx string) (string, error) {
+					if !called {
+						called = true
+						innerGot = verdictOf(prevLang, prevText)
+					}
+					return mapFn(pfx)
+				}
+				var m *xpath.Machine
+				var err error
+				var pan interface{}
+				if v.Lang == "leafref" {
+					m, err, pan = compileLeafrefIn(t1, env)
+				} else if watchdog(func() { m, err, pan = compileExprIn(t1, env) }) {
+					m, err, pan = nil, errHang, nil
+				}
+				gN := "accept"
+				switch {
+				case pan != nil:
+					gN = "panic"
+				case err != nil && m != nil:
+					gN = "both"
+				case err != nil:
+					gN = "reject"
+				case m == nil:
+					gN = "neither"
+				}
+				if gN != g1 || (called && innerGot != prevGot) {
+					rec.Note = fmt.Sprintf("overlapping compilations: %s with %q (%s) compiled inside its prefix callback, which came out %s; alone: %s and %s",
+						gN, prevText, prevLang, innerGot, g1, prevGot)
+					rec.Got = gN
+					enc.Encode(rec)
+					bad++
+					prevText, prevLang, prevGot = t1, v.Lang, g1
+					continue
+				}
+			}
+			prevText, prevLang, prevGot = t1, v.Lang, g1
 			if v.V == "unspecified" {
 				continue
 			}
@@ -171,5 +270,5 @@ func gram(args []string) {
 		f.Close()
 	}
 	cj, _ := json.Marshal(counts)
-	fmt.Printf("{\"sequences\":%d,\"judged\":%d,\"disagreements\":%d,\"counts\":%s}\n", n, judged, bad, cj)
+	fmt.Printf("{\"sequences\":%d,\"judged\":%d,\"disagreements\":%d,\"nested_compilations\":%d,\"counts\":%s}\n", n, judged, bad, nested, cj)
 }
